@@ -30,8 +30,9 @@ META = {
 }
 RULE = (
     "all (instance, timeline) pairs: instance = operator x due time/period/throttle observables x parameter form x clock kind; timelines = every "
-    "sequence of <=N on_next over the alphabet with consecutive gaps in {0,5,10,15} followed by nothing, completion or error after every gap in "
-    "{0,5,10,15}; non-trivial = the source emitted >=1 element and (the reference output differs from the source's own events or a same-instant "
+    "sequence of <=N on_next with consecutive gaps in {0,5,10,15} followed by nothing, completion or error after every gap in "
+    "{0,5,10,15}; element values: every word over two values (thorough: additionally pairwise distinct positional values); "
+    "non-trivial = the source emitted >=1 element and (the reference output differs from the source's own events or a same-instant "
     "tie was resolved); distinct = (instance, timeline)"
 )
 BUDGET = {"quick": 150.0, "thorough": 1500.0}
@@ -194,9 +195,10 @@ class Sample:
 # ------------------------------------------------------------------ instances
 
 class Inst:
-    def __init__(self, iid, clock, build, model, extra=None, first_gaps=None):
+    def __init__(self, iid, clock, build, model, extra=None, first_gaps=None, values="pos", deep=True):
         self.iid, self.clock, self.build, self.model = iid, clock, build, model
         self.extra, self.first_gaps = extra or {}, first_gaps
+        self.values, self.deep = values, deep  # see timeref.instance_timelines
 
 
 THROTTLE_OBS = {
@@ -218,7 +220,7 @@ SAMPLERS = {
 def bounds(tier):
     if tier == "quick":
         return {
-            "N": 3, "alphabet": 2,
+            "N": 3,
             "debounce": [("rel", 10, "num"), ("td", 10, "num"), ("rel", 5, "num"), ("rel", 10, "dt")],
             "throttle_first": [("rel", 10, "num"), ("rel", 15, "num"), ("td", 10, "dt")],
             "throttle_obs": ("sync", "n10", "c5", "never"),
@@ -226,7 +228,7 @@ def bounds(tier):
             "samplers": ("every10", "15,30,C45"),
         }
     return {
-        "N": 4, "alphabet": 2,
+        "N": 4,
         "debounce": [(f, d, c) for c in ("num", "dt") for f in ("rel", "td") for d in (5, 10, 15)] + [("float", 10, "num"), ("rel", 25, "num")],
         "throttle_first": [(f, d, c) for c in ("num", "dt") for f in ("rel", "td") for d in (5, 10, 15, 25)],
         "throttle_obs": ("sync", "n10", "c5", "never", "n0", "n15c"),
@@ -237,7 +239,7 @@ def bounds(tier):
 
 def seed_params(seed):
     rot = seed % 3
-    vals = (1 + 10 * rot, 2 + 10 * rot, 3 + 10 * rot)
+    vals = (1 + 10 * rot, 2 + 10 * rot, 3 + 10 * rot, 4 + 10 * rot)
     sub = (200, 300, 250)[rot]
     return vals, sub
 
@@ -271,7 +273,7 @@ def instances(tier, seed):
             extra = {f"t{A}": THROTTLE_OBS[ta], f"t{B}": THROTTLE_OBS[tb]}
             yield Inst(f"throttle_with_mapper:{ta}:{tb}:num", "num",
                        lambda K, S: S["src"].pipe(ops.throttle_with_mapper(lambda x: S[f"t{x}"])),
-                       lambda tl, throttles=throttles: ThrottleWithMapper(tl, throttles), extra=extra, first_gaps=(5,))
+                       lambda tl, throttles=throttles: ThrottleWithMapper(tl, throttles), extra=extra, first_gaps=(5,), values="alpha")
     for (form, d, clock) in b["sample_period"]:
         yield Inst(f"sample:{form}:{d}:{clock}", clock,
                    lambda K, S, d=d, form=form: S["src"].pipe(ops.sample(time_arg(K, form, d), scheduler=K.sched)),
@@ -283,14 +285,10 @@ def instances(tier, seed):
 
 
 def all_cases(tier, seed):
-    b = bounds(tier)
     vals, _ = seed_params(seed)
     cache = {}
     for inst in instances(tier, seed):
-        key = inst.first_gaps
-        if key not in cache:
-            cache[key] = list(timeref.gap_timelines(b["N"], vals[: b["alphabet"]], GAPS, first_gaps=inst.first_gaps))
-        for tl in cache[key]:
+        for tl in timeref.instance_timelines(tier, inst.values, inst.deep, vals, GAPS, inst.first_gaps, cache):
             yield inst, tl
 
 
@@ -336,7 +334,8 @@ def shard(part: core.Part, shard_i, nshards, tier, seed, deadline):
 
 def run(ctx: core.Ctx):
     b = bounds(ctx.tier)
-    ctx.bounds = {"N": b["N"], "alphabet_size": b["alphabet"], "gaps": list(GAPS),
+    ctx.bounds = {"N": b["N"], "gaps": list(GAPS),
+                  "values": "every word over 2 values" + (" (plus positional distinct values)" if ctx.tier != "quick" else ""),
                   "debounce": [list(x) for x in b["debounce"]], "throttle_first": [list(x) for x in b["throttle_first"]],
                   "throttle_observables": list(b["throttle_obs"]), "sample_periods": [list(x) for x in b["sample_period"]],
                   "samplers": list(b["samplers"])}
